@@ -58,6 +58,25 @@ func orderPrograms() []string {
 		// compiled code shared between threads: functions of a loaded module and of the program itself
 		"load('lib', 'inc', 'tot', 'apply', 'add5', 'mk')\nt(1, tot([1, 2, 3]))\nt(2, apply(inc, 4))\nt(3, [inc(i) for i in range(3)])\nt(4, add5(1) + mk(2)(3))\n",
 		"def f(x):\n    return g(x) + 1\ndef g(x):\n    return x * 2\nt(1, [f(i) for i in range(3)])\nt(2, sorted([3, 1, 2], key = f))\nt(3, f(g(f(1))))\n",
+		// one shared function failing at different operations in different executions
+		"load('lib', 'head')\nhead([])\n",
+		"load('lib', 'head')\nhead([1])\n",
+		"load('lib', 'walk')\nwalk([])\n",
+		"load('lib', 'walk')\nwalk([[0]])\n",
+		"load('lib', 'walk')\nwalk([[0, []]])\n",
+		"load('lib', 'pick')\npick({1: 1}, 0)\n",
+		"load('lib', 'pick')\npick({1: 1}, 1)\n",
+		"load('lib', 'pick')\npick({1: 1, 2: 'x'}, 1)\n",
+		// attribute listings and hints of every kind of value as the host sees them (t records AttrNames)
+		"n = time.now()\nd = time.parse_duration('1h')\nt(1, n)\nt(2, d)\nt(3, n.heaur)\n",
+		"d = time.parse_duration('1h')\nt(1, d.secnds)\n",
+		"t(1, struct(alpha = 1, beta = 2))\nt(2, json)\nt(3, math)\nt(4, time)\nt(5, [].apend)\n",
+		// undefined names as close to one referenced predeclared or universal name as to another
+		"x = min(1, 2)\ny = max(1, 2)\nz = mix(1, 2)\n",
+		"a = any([])\nb = all([])\nc = aly([])\n",
+		"p = [list, dict, tuple, set]\nq = lict\n",
+		"u = json.encode(1)\nv = math.pi\nw = jsom\n",
+		"def f():\n    return [len, min, max, int, str][0](mxn)\nf()\n",
 		// functions as keys, hash of tuples
 		fmt.Sprintf("def f(): pass\ndef g(): pass\nd = {f: 1, g: 2, (%s, 1): 3, (1, %s): 4, len: 5}\nt(1, [v for v in d.values()])\nt(2, hash(%s) == hash(%s))\n", q(L0), q(L0), q(L1), q(L1)),
 	}
@@ -97,6 +116,13 @@ func corpusPrograms(thorough bool) []string {
 // fail with a backtrace (decoding position tables), load modules and use
 // every module's method tables.
 var historyPrograms = []string{
+	// every kind of value is dir()ed (built-ins that list attributes must not disturb anything shared)
+	"vs = [time.now(), time.parse_duration('1s'), time, json, math, struct(b = 1, a = 2), [], {}, '', b'', set(), (), 1, 1.0, None, True, range(1), len, [].append, lambda: 1]\nx = [dir(v) for v in vs]\ny = [str(v) for v in vs]\n",
+	// the shared library functions fail at each of their operations
+	"load('lib', 'head')\nhead([])\n",
+	"load('lib', 'head')\nhead([1])\n",
+	"load('lib', 'walk')\nwalk([[0]])\n",
+	"load('lib', 'pick')\npick({1: 1}, 1)\n",
 	"x = dir([]) + dir({}) + dir('') + dir(set()) + dir(json) + dir(time) + dir(math)\n",
 	"def f(): return [1][5]\nf()\n",
 	"load('m', 'a', 'b')\ny = (a, b)\n",
